@@ -277,7 +277,11 @@ def rule_caps(ctx, repo, ci):
         from ..rules import equiv as _eq20
         for n in walk_no_nested(rot.node):
             if isinstance(n, ast.Assert):
-                v_ = _eq20(canon_guard_text(repo, rot, n.test), '%s <= 4294967295' % rot.params[0])
+                x_ = rot.params[0]
+                g_ = canon_guard_text(repo, rot, n.test)
+                v_ = _eq20(g_, '%s <= 4294967295' % x_)
+                if v_ is not True and _eq20('(%s) and %s <= 4294967295' % (g_, x_), '%s <= 4294967295' % x_, domain={x_: (0, None)}) is True:
+                    v_ = True  # a weaker assertion admits every 32-bit word as well
                 if v_ is True:
                     r.ok('rotl32:domain', common.site_of(rot, n), 'every 32-bit word')
                 elif v_ is False:
